@@ -13,6 +13,9 @@ func builtinNewError(obj *object, argumentList []Value) Value {
 }
 
 func builtinErrorToString(call FunctionCall) Value {
+	if !call.This.IsObject() {
+		panic(call.runtime.panicTypeError("Error.prototype.toString called on a non-object"))
+	}
 	thisObject := call.thisObject()
 	if thisObject == nil {
 		panic(call.runtime.panicTypeError("Error.toString is nil"))
